@@ -787,6 +787,11 @@ def liveness(ctx: Any) -> List[Ob]:
     out = [o for o in wiring.fn(ctx) if any(k in o.statement for k in ('re-arms itself', 'flush timer armed', 'waits until the first group must go'))]
     for o in out:
         o.rule = 'C15.LIVENESS'
+    # `an announcement sent afterwards still reaches its browsers`: what a browser was told about a record is what happened to
+    # the cache (shared with C06.DEDUP) -- else the browser and the cache disagree for good and later announcements are refreshes
+    from .c06 import told_equals_done_obligations
+
+    out.extend(told_equals_done_obligations(ctx, 'C15.LIVENESS'))
     return out
 
 
